@@ -164,7 +164,35 @@ def run_describe(case, ctx):
                          f"{case['attr_meta']!r} reopened {am!r}")
             return fresh
 
+        def file_is_full(stage_name):
+            """The description file holds the WHOLE description (also the
+            fields that still have their default value: a reader of another
+            library version has other defaults)."""
+            on_disk = json.loads(
+                (root / "ds" / "dataset_info.json").read_text("utf-8"))
+            held = ds._dataset_info.model_dump(mode="json")  # pylint: disable=protected-access
+
+            def missing(a, b, path=""):
+                out = []
+                if isinstance(a, dict):
+                    if not isinstance(b, dict):
+                        return [path or "<root>"]
+                    for k, v in a.items():
+                        if k not in b:
+                            out.append(f"{path}.{k}")
+                        else:
+                            out.extend(missing(v, b[k], f"{path}.{k}"))
+                return out
+
+            lost = missing(held, on_disk)
+            if lost:
+                ctx.fail(
+                    "description-roundtrip", ("description-file-incomplete",),
+                    f"{stage_name}: dataset_info.json lacks {lost[:6]} of "
+                    f"the description the writer holds")
+
         compare("after-create")
+        file_is_full("after-create")
         if case["session"]:
             passed = []
             with ds.filler() as f:
@@ -232,6 +260,7 @@ def strategy_relocate(draw, tier):
     case["mode"] = draw(st.sampled_from(["copy", "move"]))
     case["open"] = draw(st.sampled_from(["abs", "rel", "rel-up", "rel-deep"]))
     case["more"] = draw(history.st_filler_op(case["desc"]["eps"], busy=True))
+    case["chdir_after_open"] = draw(st.booleans())
     return case
 
 
@@ -281,6 +310,10 @@ def run_relocate(case, ctx):
                 f"as {str(open_path)!r} (cwd {case['open']})")
         try:
             moved = Dataset(open_path)
+            if case.get("chdir_after_open"):
+                # the handle must keep pointing at the dataset it opened
+                os.chdir("/")
+                what += ", then chdir('/')"
             moved.check(show_progressbar=False)
         except Exception as exc:  # pylint: disable=broad-except
             ctx.fail("relocated-opens", ("relocated-open-or-check-failed",
